@@ -142,6 +142,10 @@ func (chain *Chain) bootLoops() {
 }
 
 func (chain *Chain) waitOrDone(wait time.Duration) {
+	if simEnabled && simStepMode {
+		chain.running = false
+		return
+	}
 	timer := time.NewTimer(wait)
 	defer timer.Stop()
 
@@ -163,6 +167,10 @@ func (chain *Chain) wakeCosiLoop() {
 }
 
 func (chain *Chain) waitCosiLoop(wait time.Duration) {
+	if simEnabled && simStepMode {
+		chain.running = false
+		return
+	}
 	timer := time.NewTimer(wait)
 	defer timer.Stop()
 
